@@ -928,7 +928,26 @@ def select_cases(ctx, cases, n_quick):
     slim = [c for c in rest if c["src"] != "simulate"]
     for l in (dev, rich, slim):
         rng.shuffle(l)
-    return dev[: n_quick // 4] + rich[: n_quick // 4] + slim[: n_quick // 2]
+
+    def spread(cs, n):
+        """round-robin over (world, op types of the model) so that every combination the spec derived is replayed"""
+        groups = {}
+        for c in cs:
+            main = set(c["model"]["main"])
+            key = (c["world"],) + tuple(nd["op"] for nd in c["model"]["nodes"] if nd["outs"][0] in main)
+            groups.setdefault(key, []).append(c)
+        out = []
+        keys = sorted(groups)
+        rng.shuffle(keys)
+        while len(out) < n and keys:
+            keys = [k for k in keys if groups[k]]
+            for k in keys:
+                out.append(groups[k].pop())
+                if len(out) >= n:
+                    break
+        return out
+
+    return spread(dev, n_quick // 4) + spread(rich, n_quick // 4) + spread(slim, n_quick // 2)
 
 
 def variants_for(ctx, idx):
@@ -1033,3 +1052,233 @@ def lib_attribute(rel, mode, v, symptom, detail, feats=None):
         if symptom in ("value", "run"):
             return "overridable_read_as_const"
     return None
+
+
+# ------------------------------------------------------------------------------------------------
+# parameterised families for default rules / rewrite() uses outside the TLA+ menu (float valued, judged before/after only)
+#   bn_*      : BatchNormalization(Conv | ConvTranspose | Gemm) with initializer parameters, explicit non-default epsilon and small
+#               variances (FuseBatchNormInto*), in the main graph and inside an If branch
+#   newdom_*  : rewrite(model, rule set whose replacement uses a NEW operator domain) where the matches lie only inside nested
+#               graphs (If branches, Loop body, If in If), in the main graph, or in both
+# ------------------------------------------------------------------------------------------------
+FAMILY_VARIANTS_BN = ["optimize", "optimize_ir_i1_noinf", "rewrite", "rewrite_pass_ir", "optimize_i3_nostop_in0", "optimize_noinline"]
+FAMILY_VARIANTS_NEWDOM = ["rewrite_bias_gelu", "rewrite_custom_domain", "optimize", "rewrite"]
+
+
+def _custom_domain_rules():
+    from onnxscript.rewriter import pattern
+
+    def pat(op, x):
+        return op.Neg(op.Neg(x))
+
+    def rep(op, x, **_):
+        return op.VerifTwiceNeg(x, _domain="verif.custom")
+
+    return [pattern.RewriteRule(pat, rep)]
+
+
+def _apply_family_variant(name, m):
+    from onnxscript import rewriter
+
+    if name == "rewrite_bias_gelu":
+        from onnxscript.rewriter.ort_fusions.bias_gelu import bias_gelu_rules
+
+        return rewriter.rewrite(m, bias_gelu_rules)
+    if name == "rewrite_custom_domain":
+        return rewriter.rewrite(m, _custom_domain_rules())
+    return apply_variant(name, m)
+
+
+def _wrap_if(nodes, inits, out_vi, cond_name, where, other_nodes, prefix):
+    """If(cond) whose `where` branch holds `nodes` (owning `inits`) and whose other branch holds `other_nodes`"""
+    import onnx
+    from onnx import helper
+
+    def vi(name):
+        v = onnx.ValueInfoProto()
+        v.CopyFrom(out_vi)
+        v.name = name
+        return v
+
+    a = helper.make_graph(nodes, prefix + "a", [], [vi(nodes[-1].output[0])], inits)
+    b = helper.make_graph(other_nodes, prefix + "b", [], [vi(other_nodes[-1].output[0])], [])
+    tb, eb = (a, b) if where == "then" else (b, a)
+    return helper.make_node("If", [cond_name], [out_vi.name], then_branch=tb, else_branch=eb, name=prefix + "if")
+
+
+def family_models(ctx):
+    """-> list of (name, model bytes, feeds, variants, runnable_after)"""
+    import random
+
+    import onnx
+    from onnx import TensorProto as T
+    from onnx import helper as h
+    from onnx import numpy_helper as nh
+
+    rng = random.Random(ctx.seed + 13)
+    nprng = np.random.default_rng(ctx.seed + 13)
+    out = []
+
+    def f32(*shape, lo=-1.0, hi=1.0):
+        return nprng.uniform(lo, hi, size=shape).astype(np.float32)
+
+    # ---- BatchNormalization after Conv / ConvTranspose / Gemm
+    eps_menu = [None, 1e-3, 0.1] if ctx.quick else [None, 1e-5, 1e-3, 1e-2, 0.1]
+    for inbound in ("Conv", "ConvTranspose", "Gemm"):
+        for eps in eps_menu:
+            for bias in (True, False):
+                for place in ("main", "then"):
+                    if ctx.quick and place == "then" and not bias:
+                        continue
+                    c_in, c_out = 2, 3
+                    if inbound == "Gemm":
+                        xs, ws = [2, 4], [4, c_out]
+                        nin = h.make_node("Gemm", ["x", "W"] + (["B"] if bias else []), ["t"], name="inb")
+                    elif inbound == "Conv":
+                        xs, ws = [1, c_in, 4, 4], [c_out, c_in, 3, 3]
+                        nin = h.make_node("Conv", ["x", "W"] + (["B"] if bias else []), ["t"], name="inb")
+                    else:
+                        xs, ws = [1, c_in, 3, 3], [c_in, c_out, 2, 2]
+                        nin = h.make_node("ConvTranspose", ["x", "W"] + (["B"] if bias else []), ["t"], name="inb")
+                    attrs = {} if eps is None else {"epsilon": eps}
+                    nbn = h.make_node("BatchNormalization", ["t", "gamma", "beta", "mean", "var"], ["y_in" if place != "main" else "y"], name="bn", **attrs)
+                    inits = [nh.from_array(f32(*ws), "W"), nh.from_array(f32(c_out, lo=0.5, hi=2.0), "gamma"), nh.from_array(f32(c_out), "beta"),
+                             nh.from_array(f32(c_out), "mean"), nh.from_array(f32(c_out, lo=0.01, hi=0.05), "var")]
+                    if bias:
+                        inits.append(nh.from_array(f32(c_out), "B"))
+                    rank = 2 if inbound == "Gemm" else 4
+                    yvi = h.make_tensor_value_info("y", T.FLOAT, [None] * rank)
+                    inputs = [h.make_tensor_value_info("x", T.FLOAT, xs)]
+                    if place == "main":
+                        g = h.make_graph([nin, nbn], "bn", inputs, [yvi], inits)
+                        feeds = [{"x": f32(*xs, lo=-2, hi=2)}, {"x": np.zeros(xs, np.float32)}, {"x": f32(*xs, lo=-100, hi=100)}]
+                    else:
+                        other = [h.make_node("Identity", ["zero"], ["y_other"])]
+                        oshape = [2, c_out] if inbound == "Gemm" else ([1, c_out, 2, 2] if inbound == "Conv" else [1, c_out, 4, 4])
+                        ifn = _wrap_if([nin, nbn], inits, yvi, "cond", "then", other, "bn_")
+                        inputs.append(h.make_tensor_value_info("cond", T.BOOL, []))
+                        g = h.make_graph([ifn], "bn_if", inputs, [yvi], [nh.from_array(np.zeros(oshape, np.float32), "zero")])
+                        feeds = [{"x": f32(*xs, lo=-2, hi=2), "cond": np.array(True)}, {"x": f32(*xs, lo=-2, hi=2), "cond": np.array(False)},
+                                 {"x": f32(*xs, lo=-100, hi=100), "cond": np.array(True)}]
+                    m = h.make_model(g, opset_imports=[h.make_opsetid("", 18)])
+                    m.ir_version = 9
+                    out.append((f"bn_{inbound}_eps{eps}_bias{int(bias)}_{place}", m.SerializeToString(), feeds, FAMILY_VARIANTS_BN, True))
+
+    # ---- rewrite with a rule set that introduces a new domain; matches in nested graphs
+    xs = [2, 4]
+    xvi = h.make_tensor_value_info("x", T.FLOAT, xs)
+    bvi = h.make_tensor_value_info("bias", T.FLOAT, [4])
+    cvi = h.make_tensor_value_info("cond", T.BOOL, [])
+    zvi = h.make_tensor_value_info("z", T.FLOAT, xs)
+
+    def gelu(p):
+        return [h.make_node("Add", ["x", "bias"], [p + "s"]), h.make_node("Gelu", [p + "s"], [p + "g"])]
+
+    def negneg(p):
+        return [h.make_node("Neg", ["x"], [p + "n1"]), h.make_node("Neg", [p + "n1"], [p + "n2"])]
+
+    def plain(p):
+        return [h.make_node("Abs", ["x"], [p + "a"])]
+
+    def feeds3():
+        return [{"x": f32(*xs, lo=-3, hi=3), "bias": f32(4), "cond": np.array(c)} for c in (True, False, True)]
+
+    for body_name, body in (("gelu", gelu), ("negneg", negneg)):
+        for where in ("then", "else", "both", "main", "main_and_then", "if_in_if", "loop"):
+            if where in ("then", "else"):
+                nodes = [_wrap_if(body("a_"), [], zvi, "cond", where, plain("b_"), "w_")]
+            elif where == "both":
+                tb = h.make_graph(body("a_"), "t", [], [h.make_tensor_value_info(body("a_")[-1].output[0], T.FLOAT, xs)])
+                eb = h.make_graph(body("b_"), "e", [], [h.make_tensor_value_info(body("b_")[-1].output[0], T.FLOAT, xs)])
+                nodes = [h.make_node("If", ["cond"], ["z"], then_branch=tb, else_branch=eb)]
+            elif where == "main":
+                b = body("m_")
+                nodes = b + [h.make_node("Identity", [b[-1].output[0]], ["z"])]
+            elif where == "main_and_then":
+                b = body("m_")
+                zi = h.make_tensor_value_info("zi", T.FLOAT, xs)
+                nodes = b + [_wrap_if(body("a_"), [], zi, "cond", "then", plain("b_"), "w_"), h.make_node("Add", [b[-1].output[0], "zi"], ["z"])]
+            elif where == "if_in_if":
+                zi = h.make_tensor_value_info("zi", T.FLOAT, xs)
+                inner = _wrap_if(body("a_"), [], zi, "cond", "else", plain("b_"), "v_")
+                tb = h.make_graph([inner, h.make_node("Identity", ["zi"], ["zo"])], "outer_t", [], [h.make_tensor_value_info("zo", T.FLOAT, xs)])
+                eb = h.make_graph(plain("c_"), "outer_e", [], [h.make_tensor_value_info("c_a", T.FLOAT, xs)])
+                nodes = [h.make_node("If", ["cond"], ["z"], then_branch=tb, else_branch=eb)]
+            else:  # Loop with one iteration whose body holds the pattern
+                b = body("l_")
+                lb = h.make_graph(b + [h.make_node("Identity", ["lc"], ["lco"])], "body",
+                                  [h.make_tensor_value_info("li", T.INT64, []), h.make_tensor_value_info("lc", T.BOOL, []), h.make_tensor_value_info("ls", T.FLOAT, xs)],
+                                  [h.make_tensor_value_info("lco", T.BOOL, []), h.make_tensor_value_info(b[-1].output[0], T.FLOAT, xs)])
+                nodes = [h.make_node("Loop", ["trip", "ctrue", "x"], ["z"], body=lb)]
+            inits = [nh.from_array(np.array(1, np.int64), "trip"), nh.from_array(np.array(True), "ctrue")] if where == "loop" else []
+            g = h.make_graph(nodes, f"nd_{where}", [xvi, bvi, cvi], [zvi], inits)
+            m = h.make_model(g, opset_imports=[h.make_opsetid("", 20)])
+            m.ir_version = 9
+            variants = ["rewrite_bias_gelu" if body_name == "gelu" else "rewrite_custom_domain", "optimize", "rewrite"]
+            # the custom-domain operator has no kernel: its result is judged structurally only
+            out.append((f"newdom_{body_name}_{where}", m.SerializeToString(), feeds3(), variants, body_name == "gelu"))
+    rng.shuffle(out)
+    return out
+
+
+def replay_family(arg):
+    import onnx
+
+    quiet()
+    name, data, feeds, vnames, runnable, want_abs = arg
+    out = {"name": name, "skip": None, "variants": []}
+    m = onnx.ModelProto()
+    m.ParseFromString(data)
+    RT, AT = 1e-3, 1e-4
+    try:
+        onnx.checker.check_model(m)
+        sess0 = core.ort_session(m)
+        orig = [sess0.run(None, f) for f in feeds]
+    except Exception as e:  # noqa: BLE001
+        out["skip"] = f"{type(e).__name__}: {str(e)[:200]}"
+        return out
+    if want_abs:
+        out["abs0"] = core.abstract_model(f"{name}/orig", m)
+    sig0 = signature(m)
+    for vn in vnames:
+        v = {"name": vn, "exc": None, "site": "", "check": None, "sig": [], "fail": [], "abs": None, "changed": False}
+        out["variants"].append(v)
+        m1 = onnx.ModelProto()
+        m1.CopyFrom(m)
+        try:
+            m2 = _apply_family_variant(vn, m1)
+        except Exception as e:  # noqa: BLE001
+            v["exc"] = exc_text(e)
+            v["site"] = exc_site(e)
+            continue
+        v["changed"] = op_multiset(m2) != op_multiset(m)
+        try:
+            onnx.checker.check_model(m2)
+        except Exception as e:  # noqa: BLE001
+            v["check"] = str(e)[:300]
+        v["sig"] = sig_diff(sig0, signature(m2))
+        if want_abs:
+            v["abs"] = core.abstract_model(f"{name}/{vn}", m2)
+            v["ssa_scoped"] = scoped_ssa_ok(m2)
+        if not runnable and vn == "rewrite_custom_domain":
+            continue
+        try:
+            sess = core.ort_session(m2)
+        except Exception as e:  # noqa: BLE001
+            v["fail"].append((-1, "load", str(e)[:300]))
+            continue
+        for k, f in enumerate(feeds):
+            try:
+                got = sess.run(None, f)
+            except Exception as e:  # noqa: BLE001
+                v["fail"].append((k, "run", str(e)[:200]))
+                continue
+            if not same_outputs(orig[k], got, RT, AT):
+                v["fail"].append((k, "value", f"original {brief(orig[k])} optimized {brief(got)}"))
+    return out
+
+
+def direction_family(ctx, want_abs):
+    fams = family_models(ctx)
+    res = core.pmap_safe(replay_family, [f + (want_abs,) for f in fams], timeout=200)
+    return list(zip(fams, res))
